@@ -234,8 +234,8 @@ var props = []*prop{
 		LevelNote:   "Trusted: reflect.DeepEqual / encoding/json as the notion of 'unchanged'; schemas with $ref are only checked for the instance claim (in-place expansion is outside the property).",
 		Assumptions: trusted,
 		Builds:      plain,
-		Quick:       budget{Shards: 14, Checks: 5000, TimeoutS: 400},
-		Thorough:    budget{Shards: 14, Checks: 120000, TimeoutS: 3000},
+		Quick:       budget{Shards: 14, Checks: 2500, TimeoutS: 600},
+		Thorough:    budget{Shards: 14, Checks: 60000, TimeoutS: 6000},
 	},
 	{
 		ID: "C13", Pkg: "c13", Level: "exploration",
